@@ -82,6 +82,14 @@ def generate(prop, rng, run, tier):
             continue
         if r < 0.12:
             after_save = True
+            # faults as history right before the save: a save that fails part-way, a
+            # str() of another object that fails part-way
+            if rng.random() < 0.25:
+                seq.append({"op": "failed_save", "fail_after": rng.choice([0, 1, 5, 20, 60, 200, 1000]),
+                            "ascii": rng.random() < 0.3})
+            if rng.random() < 0.2:
+                seq.append({"op": "failed_str", "what": rng.choice(["int-value", "premature",
+                                                                    "chart-without-notes"])})
             seq.append({"op": "save", "how": rng.choice(["str", "stringio", "textio", "disk"])})
         elif r < 0.18:
             seq.append({"op": "restart", "entry": rng.choice(["ctor-string", "ctor-file", "loads",
@@ -92,6 +100,12 @@ def generate(prop, rng, run, tier):
             seq.append(op)
             if op["op"] in ("charts_append", "charts_insert"):
                 nch += 1
+    if rng.random() < 0.2:
+        seq.append({"op": "failed_save", "fail_after": rng.choice([0, 1, 5, 20, 60, 200, 1000]),
+                    "ascii": rng.random() < 0.3})
+    if rng.random() < 0.15:
+        seq.append({"op": "failed_str", "what": rng.choice(["int-value", "premature",
+                                                            "chart-without-notes"])})
     seq.append({"op": "save", "how": rng.choice(["str", "stringio", "textio", "disk"])})
     return {"workload": "edit", "property": prop, "config": cfg, "ops": gen.flatten_ops(seq)}
 
@@ -300,6 +314,66 @@ def save_text(sf, how, lib):
     raise HarnessError("unknown save %r" % (how,))
 
 
+class _FailingWriter:
+    """A writer whose write() fails after a number of characters (a full disk, a
+    closed pipe) or that cannot encode non-ASCII text."""
+
+    def __init__(self, fail_after, ascii_only):
+        self.left = fail_after
+        self.ascii_only = ascii_only
+
+    def write(self, s):
+        if self.ascii_only:
+            s.encode("ascii")
+        self.left -= len(s)
+        if self.left < 0:
+            raise OSError(28, "No space left on device (injected)")
+        return len(s)
+
+
+def failed_save(sc, res, sf, op, lib, prop):
+    """A save that fails part-way (fault), as history: it may raise, it must not
+    change the object."""
+    before = ops.real_plain(sf, lib)
+    w = _FailingWriter(int(op.get("fail_after", 0)), bool(op.get("ascii")))
+    try:
+        sf.serialize(w)
+        res.stats["failed-save-did-not-fail"] += 1
+    except (OSError, UnicodeEncodeError):
+        res.stats["fault:save-failed-part-way"] += 1
+    except Exception:
+        # an object outside the domain (unserialisable) may fail in other ways
+        res.stats["failed-save-other-exception"] += 1
+    if ops.real_plain(sf, lib) != before:
+        res.violate(prop, "failed-save-changed-the-object", op=op, before=_trim(before),
+                    after=_trim(ops.real_plain(sf, lib)))
+
+
+def failed_str_elsewhere(sc, res, op, lib, fmt):
+    """str() of *another* object fails part-way (it holds a non-string value, or has
+    no charts yet).  Pure history for the session's own object."""
+    cls = lib.SMSimfile if fmt == "sm" else lib.SSCSimfile
+    what = op.get("what", "int-value")
+    try:
+        if what == "premature":
+            other = cls()
+            other["LEFTOVER"] = "x"
+            str(other)
+        elif what == "chart-without-notes" and fmt == "ssc":
+            other = cls(string="#VERSION:0.83;\n#LEFTOVER:x;\n")
+            c = lib.SSCChart()
+            c["STEPSTYPE"] = "leftover"
+            other.charts.append(c)
+            str(other)
+        else:
+            other = cls(string="#LEFTOVER:x;\n#OFFSET:1;\n")
+            other["OFFSET"] = 1.5
+            str(other)
+        res.stats["failed-str-did-not-fail"] += 1
+    except Exception:
+        res.stats["fault:str-of-other-object-failed"] += 1
+
+
 def reload_text(text, entry, fmt, lib):
     cls = lib.SMSimfile if fmt == "sm" else lib.SSCSimfile
     if entry == "ctor-string":
@@ -333,6 +407,7 @@ def check_save(sc, res, sf, how, lib, prop, guard=True):
     if gap is not None and gap[0] == "excluded" and guard:
         res.stats["outside-domain:gap-" + gap[1]] += 1
         return None
+    before = model.plain()
     try:
         text = save_text(sf, how, lib)
     except UnicodeEncodeError:
@@ -342,6 +417,10 @@ def check_save(sc, res, sf, how, lib, prop, guard=True):
         res.violate(prop, "serialize-raised", how=how, exc=repr(e), state=model.plain())
         return None
     res.evaluations += 1
+    if ops.real_plain(sf, lib) != before:
+        res.violate(prop, "serialization-changed-the-object", how=how, before=_trim(before),
+                    after=_trim(ops.real_plain(sf, lib)))
+        return None
 
     def gapped(clause, **detail):
         """A failure inside an msdparser escaping gap is the dependency's."""
@@ -550,6 +629,16 @@ def execute(sc):
             text = check_save(sc, res, sf, op.get("how", "str"), lib, prop, guard)
             if res.violations:
                 break
+            continue
+        if name == "failed_save":
+            if prop != "C18":
+                failed_save(sc, res, sf, op, lib, prop)
+                if res.violations:
+                    break
+            continue
+        if name == "failed_str":
+            if prop != "C18":
+                failed_str_elsewhere(sc, res, op, lib, fmt)
             continue
         if name == "restart":
             if prop == "C18":
